@@ -69,6 +69,7 @@ fn line<T: spanned::Spanned>(t: &T) -> usize {
 struct Scan {
     stack: Vec<Value>,
     fn_stack: Vec<String>,
+    fn_cfg_stack: Vec<Value>,
     items: Vec<Value>,
     uses: Vec<Value>,
     paths: Vec<Value>,
@@ -235,7 +236,10 @@ impl<'ast> Visit<'ast> for Scan {
             }
             Item::Fn(f) => {
                 s.fn_stack.push(f.sig.ident.to_string());
+                let c = s.cur();
+                s.fn_cfg_stack.push(c);
                 visit::visit_item(s, i);
+                s.fn_cfg_stack.pop();
                 s.fn_stack.pop();
             }
             _ => visit::visit_item(s, i),
@@ -248,7 +252,10 @@ impl<'ast> Visit<'ast> for Scan {
         self.unused_stack.push(allows_unused(&attrs));
         self.with(&attrs, |s| {
             s.fn_stack.push(f.sig.ident.to_string());
+            let c = s.cur();
+            s.fn_cfg_stack.push(c);
             visit::visit_impl_item_fn(s, f);
+            s.fn_cfg_stack.pop();
             s.fn_stack.pop();
         });
         self.unused_stack.pop();
@@ -333,7 +340,7 @@ impl<'ast> Visit<'ast> for Scan {
 
     fn visit_path(&mut self, p: &'ast syn::Path) {
         let segs: Vec<String> = p.segments.iter().map(|x| x.ident.to_string()).collect();
-        self.paths.push(json!({"cfg": self.cur(), "segments": segs, "line": line(p), "fn": self.fn_stack.last(), "leading_colon": p.leading_colon.is_some()}));
+        self.paths.push(json!({"cfg": self.cur(), "segments": segs, "line": line(p), "fn": self.fn_stack.last(), "fn_cfg": self.fn_cfg_stack.last(), "leading_colon": p.leading_colon.is_some()}));
         visit::visit_path(self, p);
     }
 }
@@ -365,7 +372,7 @@ fn scan_file(path: &Path, module: Vec<String>, out: &mut Vec<Value>, root: &Path
             return;
         }
     };
-    let mut s = Scan { stack: vec![], fn_stack: vec![], items: vec![], uses: vec![], paths: vec![], lets: vec![], variants: vec![], arms: vec![], macro_idents: vec![], item_macros: vec![], bindings: vec![], mods: vec![], assoc_fns: vec![], method_calls: vec![], dead_stack: vec![allows_dead(&file.attrs)], unused_stack: vec![allows_unused(&file.attrs)] };
+    let mut s = Scan { stack: vec![], fn_stack: vec![], fn_cfg_stack: vec![], items: vec![], uses: vec![], paths: vec![], lets: vec![], variants: vec![], arms: vec![], macro_idents: vec![], item_macros: vec![], bindings: vec![], mods: vec![], assoc_fns: vec![], method_calls: vec![], dead_stack: vec![allows_dead(&file.attrs)], unused_stack: vec![allows_unused(&file.attrs)] };
     s.stack.extend(cfgs(&file.attrs));
     s.visit_file(&file);
     let rel = path.strip_prefix(root).unwrap_or(path).to_string_lossy().to_string();
